@@ -142,6 +142,10 @@ func scanWritten(out []byte, nparas int) string {
 }
 
 // writeParas writes the paragraphs through one of the library's writers.
+// c08Groups is the shape of the EncoderMixed call sequence: each entry n>0 is
+// one Encode of a slice of n structs, 0 is one Encode of a single struct.
+var c08Groups []int
+
 func writeParas(r *rt.Run, api string, paras []control.Paragraph, w *simio.Writer) (err error, task *rt.Task) {
 	task = r.Solo("writer:"+api, func() {
 		switch api {
@@ -164,6 +168,39 @@ func writeParas(r *rt.Run, api string, paras []control.Paragraph, w *simio.Write
 				return
 			}
 			for i := range paras {
+				if err = enc.Encode(&embedPara{paras[i]}); err != nil {
+					return
+				}
+			}
+		case "EncoderMixed":
+			// one Encoder, a mix of single structs and slices
+			enc, e := control.NewEncoder(w)
+			if e != nil {
+				err = e
+				return
+			}
+			i := 0
+			for _, g := range c08Groups {
+				if i >= len(paras) {
+					break
+				}
+				if g == 0 {
+					if err = enc.Encode(&embedPara{paras[i]}); err != nil {
+						return
+					}
+					i++
+					continue
+				}
+				sl := []embedPara{}
+				for j := 0; j < g && i < len(paras); j++ {
+					sl = append(sl, embedPara{paras[i]})
+					i++
+				}
+				if err = enc.Encode(sl); err != nil {
+					return
+				}
+			}
+			for ; i < len(paras); i++ {
 				if err = enc.Encode(&embedPara{paras[i]}); err != nil {
 					return
 				}
@@ -208,8 +245,15 @@ func taskTrouble(r *rt.Run, id, key string, t *rt.Task) bool {
 
 func runC08(r *rt.Run, tier string) {
 	t := r.T
-	apis := []string{"WriteTo", "Encoder", "MarshalSlice"}
+	apis := []string{"WriteTo", "Encoder", "MarshalSlice", "EncoderMixed"}
 	api := apis[t.Draw(len(apis), "c08.api")]
+	c08Groups = nil
+	if api == "EncoderMixed" {
+		for i := 0; i < 4; i++ {
+			c08Groups = append(c08Groups, t.Draw(3, "c08.group"))
+		}
+		r.Probe("encoder-mixes-structs-and-slices")
+	}
 	faulty := t.Bool(1, 3, "config.faulty")
 	docFirst := t.Bool(1, 3, "c08.docfirst")
 
@@ -404,5 +448,5 @@ func init() {
 		},
 		Assumptions: []string{"values are compared after removing one trailing newline (the statement's equality) and, for values built with the library's leading-newline multi-line marker, the marker", "lines that are exactly '.', blanks around a first line, and field names with ':' or leading '#' are outside the text format and not generated"},
 	})
-	propProbes["C08"] = []string{"single-line-with-trailing-newline", "multi-line-with-trailing-newline", "two-empty-lines", "three-empty-lines", "four-empty-lines", "leading-marker", "three-or-more-paragraphs", "three-or-more-cycles"}
+	propProbes["C08"] = []string{"encoder-mixes-structs-and-slices", "single-line-with-trailing-newline", "multi-line-with-trailing-newline", "two-empty-lines", "three-empty-lines", "four-empty-lines", "leading-marker", "three-or-more-paragraphs", "three-or-more-cycles"}
 }
